@@ -115,37 +115,56 @@ pub fn no_effect_relation(rel: Relation, h: &History, st: &mut Stats) -> TestRes
     };
     // peer validation is C15's statement and is not compared here
     let keep = |step: &Vec<String>| -> Vec<String> { step.iter().filter(|l| !l.starts_with("validated ")).cloned().collect() };
-    for i in 0..h.ops.len() {
-        let (a, b): (Vec<String>, Vec<String>) = if neutral.contains(&i) {
-            (lines_outstanding(&base[i]).into_iter().cloned().collect(), lines_outstanding(&ctl[i]).into_iter().cloned().collect())
-        } else {
-            (keep(&base[i]), keep(&ctl[i]))
-        };
-        if a != b {
-            let xa = a.iter().find(|l| !b.contains(l)).cloned().unwrap_or_default();
-            let xb = b.iter().find(|l| !a.contains(l)).cloned().unwrap_or_default();
-            let culprit = neutral.iter().filter(|s| **s <= i).last().copied().unwrap_or(0);
-            let what = if rel == Relation::NoEffect {
-                "calls that must change nothing about any transaction (refused duplicate send / message for an id that is not outstanding / incoming request or indication / send of a non-request)"
+    let first_difference = |base: &Vec<Vec<String>>, ctl: &Vec<Vec<String>>| -> Option<(usize, String, String)> {
+        for i in 0..h.ops.len() {
+            let (a, b): (Vec<String>, Vec<String>) = if neutral.contains(&i) {
+                (lines_outstanding(&base[i]).into_iter().cloned().collect(), lines_outstanding(&ctl[i]).into_iter().cloned().collect())
             } else {
-                "responses that the agent dropped (their transaction must stay outstanding with its timing unchanged)"
+                (keep(&base[i]), keep(&ctl[i]))
             };
-            return Err(Fail::new(
-                &format!("{}-noeffect-call-had-effect", tag),
-                format!(
-                    "{} at steps {:?} (last before the difference: step {} {:?}) changed what the agent does afterwards: at step {} ({:?}, t={} ms) it answers '{}' with them and '{}' when they are replaced by no-ops (same instants, every poll a drain)",
-                    what,
-                    neutral.iter().filter(|s| **s <= i).collect::<Vec<_>>(),
-                    culprit,
-                    h.ops[culprit],
-                    i,
-                    h.ops[i],
-                    clock[i],
-                    xa,
-                    xb
-                ),
-            ));
+            if a != b {
+                let xa = a.iter().find(|l| !b.contains(l)).cloned().unwrap_or_default();
+                let xb = b.iter().find(|l| !a.contains(l)).cloned().unwrap_or_default();
+                return Some((i, xa, xb));
+            }
         }
+        None
+    };
+    if let Some((i, xa, xb)) = first_difference(&base, &ctl) {
+        // confirm on fresh agent instances (other map orders): a difference that moves or vanishes
+        // is order-dependent behaviour of the agent, which this relation cannot attribute
+        for _ in 0..3 {
+            let again = (run(h, Some(&clock))?, run(&control, Some(&clock))?);
+            let same = match again {
+                (Some((b2, _)), Some((c2, _))) => first_difference(&b2, &c2).map(|d| d.0) == Some(i),
+                _ => false,
+            };
+            if !same {
+                st.class("difference not reproducible across agent instances (order-dependent; not judged by this relation)");
+                return Ok(());
+            }
+        }
+        let culprit = neutral.iter().filter(|s| **s <= i).last().copied().unwrap_or(0);
+        let what = if rel == Relation::NoEffect {
+            "calls that must change nothing about any transaction (refused duplicate send / message for an id that is not outstanding / incoming request or indication / send of a non-request)"
+        } else {
+            "responses that the agent dropped (their transaction must stay outstanding with its timing unchanged)"
+        };
+        return Err(Fail::new(
+            &format!("{}-noeffect-call-had-effect", tag),
+            format!(
+                "{} at steps {:?} (last before the difference: step {} {:?}) changed what the agent does afterwards: at step {} ({:?}, t={} ms) it answers '{}' with them and '{}' when they are replaced by no-ops (same instants, every poll a drain)",
+                what,
+                neutral.iter().filter(|s| **s <= i).collect::<Vec<_>>(),
+                culprit,
+                h.ops[culprit],
+                i,
+                h.ops[i],
+                clock[i],
+                xa,
+                xb
+            ),
+        ));
     }
     let later_events = base.iter().enumerate().filter(|(i, _)| *i > neutral[0]).flat_map(|(_, s)| s.iter()).filter(|l| l.contains(" tx ") || l.contains(" timeout") || l.contains(" cancelled")).count();
     st.class(if rel == Relation::NoEffect { "no-effect relation compared" } else { "dropped-response relation compared" });
